@@ -2,7 +2,6 @@
 package dumparea
 
 import (
-	"time"
 	"bufio"
 	"compress/gzip"
 	"crypto/sha256"
@@ -15,6 +14,7 @@ import (
 	"sort"
 	"strconv"
 	"strings"
+	"time"
 
 	"dawgsverif/fakedb"
 
@@ -150,19 +150,19 @@ type FragProj struct {
 }
 
 type DirProj struct {
-	HasManifest   bool        `json:"has_manifest"`
-	ManifestValid bool        `json:"manifest_valid"`
+	HasManifest   bool `json:"has_manifest"`
+	ManifestValid bool `json:"manifest_valid"`
 	// ManifestDigest: hash of the manifest with its generation time blanked - everything else in it is a function of
 	// the source and the options
-	ManifestDigest string `json:"manifest_digest"`
-	Graphs        []GraphProj `json:"graphs"`
-	HasCkpt       bool        `json:"has_ckpt"`
-	CkptParsed    bool        `json:"ckpt_parsed"`
-	CkptFiles     []string    `json:"ckpt_files"`    // fragments the checkpoint records as committed
-	CkptSnapshot  bool        `json:"ckpt_snapshot"` // the checkpoint holds entity counts of the source (of a completed or the current graph)
-	Frags         []FragProj  `json:"frags"`
-	Temps         []string    `json:"temps"`
-	Other         []string    `json:"other"`
+	ManifestDigest string      `json:"manifest_digest"`
+	Graphs         []GraphProj `json:"graphs"`
+	HasCkpt        bool        `json:"has_ckpt"`
+	CkptParsed     bool        `json:"ckpt_parsed"`
+	CkptFiles      []string    `json:"ckpt_files"`    // fragments the checkpoint records as committed
+	CkptSnapshot   bool        `json:"ckpt_snapshot"` // the checkpoint holds entity counts of the source (of a completed or the current graph)
+	Frags          []FragProj  `json:"frags"`
+	Temps          []string    `json:"temps"`
+	Other          []string    `json:"other"`
 }
 
 func sha256File(p string) (string, int64) {
